@@ -13,6 +13,7 @@
      close_notify records written by close()            -> cn_close
      close_notify records written by the read loop as the reply to a received close_notify
         (processIncomingPacket: responseAlert)          -> cn_reply
+     conn.closeNotifyOnce (sendCloseNotify, shared by both writers) -> cn_once
      the handshake's firstErr channel (capacity 1)      -> first_err
      close(conn.decrypted) by the exiting read loop     -> dec_closed
      readDeadline / writeDeadline expired               -> rd_dl / wr_dl
@@ -53,6 +54,7 @@ Record conn := mkConn {
   sock_closes : nat;
   cn_close : nat;
   cn_reply : nat;
+  cn_once : bool;   (* conn.closeNotifyOnce consumed (sendCloseNotify ran) *)
   first_err : option rerr;
   dec_closed : bool;
   rd_dl : bool;
@@ -63,67 +65,76 @@ Record conn := mkConn {
 }.
 
 Definition conn0 (d v : bool) : conn :=
-  mkConn false false false false false false false false 0 0 0 None false false false false d v.
+  mkConn false false false false false false false false 0 0 0 false None false false false false d v.
 
 Definition set_closed_user (bu : bool) (c : conn) : conn :=
   mkConn true (by_user c || bu) (est c) (hs_open c) (installed c) (can_hs c) (can_rd c)
-    (sock_closed c) (sock_closes c) (cn_close c) (cn_reply c) (first_err c) (dec_closed c)
+    (sock_closed c) (sock_closes c) (cn_close c) (cn_reply c) (cn_once c) (first_err c) (dec_closed c)
     (rd_dl c) (wr_dl c) (hctx c) (dual c) (v13 c).
 Definition set_can_hs (c : conn) : conn :=
   mkConn (closed c) (by_user c) (est c) (hs_open c) (installed c) true (can_rd c)
-    (sock_closed c) (sock_closes c) (cn_close c) (cn_reply c) (first_err c) (dec_closed c)
+    (sock_closed c) (sock_closes c) (cn_close c) (cn_reply c) (cn_once c) (first_err c) (dec_closed c)
     (rd_dl c) (wr_dl c) (hctx c) (dual c) (v13 c).
 Definition set_can_rd (c : conn) : conn :=
   mkConn (closed c) (by_user c) (est c) (hs_open c) (installed c) (can_hs c) true
-    (sock_closed c) (sock_closes c) (cn_close c) (cn_reply c) (first_err c) (dec_closed c)
+    (sock_closed c) (sock_closes c) (cn_close c) (cn_reply c) (cn_once c) (first_err c) (dec_closed c)
     (rd_dl c) (wr_dl c) (hctx c) (dual c) (v13 c).
-Definition inc_cn_close (c : conn) : conn :=
+(* sendCloseNotify: closeNotifyOnce.Do(notify(warning, close_notify)).  sync.Once runs the
+   function once and makes concurrent callers wait for it, so "test the flag, set it, write the
+   record" is one atomic effect.  Called by close() (application Close of an established
+   connection) and by the read loop (reply to a received close_notify). *)
+Definition send_cn_close (c : conn) : conn :=
+  if cn_once c then c else
   mkConn (closed c) (by_user c) (est c) (hs_open c) (installed c) (can_hs c) (can_rd c)
-    (sock_closed c) (sock_closes c) (S (cn_close c)) (cn_reply c) (first_err c) (dec_closed c)
+    (sock_closed c) (sock_closes c) (S (cn_close c)) (cn_reply c) true (first_err c) (dec_closed c)
     (rd_dl c) (wr_dl c) (hctx c) (dual c) (v13 c).
-Definition inc_cn_reply (c : conn) : conn :=
+(* the reply is not written when the socket is already closed (netctx: ErrClosing), but the
+   Once is consumed all the same *)
+Definition send_cn_reply (c : conn) : conn :=
+  if cn_once c then c else
   mkConn (closed c) (by_user c) (est c) (hs_open c) (installed c) (can_hs c) (can_rd c)
-    (sock_closed c) (sock_closes c) (cn_close c) (S (cn_reply c)) (first_err c) (dec_closed c)
+    (sock_closed c) (sock_closes c) (cn_close c)
+    (if sock_closed c then cn_reply c else S (cn_reply c)) true (first_err c) (dec_closed c)
     (rd_dl c) (wr_dl c) (hctx c) (dual c) (v13 c).
 Definition close_sock (c : conn) : conn :=
   mkConn (closed c) (by_user c) (est c) (hs_open c) (installed c) (can_hs c) (can_rd c)
-    true (S (sock_closes c)) (cn_close c) (cn_reply c) (first_err c) (dec_closed c)
+    true (S (sock_closes c)) (cn_close c) (cn_reply c) (cn_once c) (first_err c) (dec_closed c)
     (rd_dl c) (wr_dl c) (hctx c) (dual c) (v13 c).
 (* firstErr is a channel of capacity 1 written with select/default: the first error stays *)
 Definition put_first_err (k : rerr) (c : conn) : conn :=
   mkConn (closed c) (by_user c) (est c) (hs_open c) (installed c) (can_hs c) (can_rd c)
-    (sock_closed c) (sock_closes c) (cn_close c) (cn_reply c)
+    (sock_closed c) (sock_closes c) (cn_close c) (cn_reply c) (cn_once c)
     (match first_err c with Some e => Some e | None => Some k end) (dec_closed c)
     (rd_dl c) (wr_dl c) (hctx c) (dual c) (v13 c).
 Definition reader_exit (c : conn) : conn :=
   mkConn (closed c) (by_user c) (est c) (hs_open c) (installed c) true (can_rd c)
-    (sock_closed c) (sock_closes c) (cn_close c) (cn_reply c) (first_err c)
+    (sock_closed c) (sock_closes c) (cn_close c) (cn_reply c) (cn_once c) (first_err c)
     (dec_closed c || est c)
     (rd_dl c) (wr_dl c) (hctx c) (dual c) (v13 c).
 Definition set_est (c : conn) : conn :=
   mkConn (closed c) (by_user c) true (hs_open c) (installed c) (can_hs c) (can_rd c)
-    (sock_closed c) (sock_closes c) (cn_close c) (cn_reply c) (first_err c) (dec_closed c)
+    (sock_closed c) (sock_closes c) (cn_close c) (cn_reply c) (cn_once c) (first_err c) (dec_closed c)
     (rd_dl c) (wr_dl c) (hctx c) (dual c) (v13 c).
 Definition set_hs_open (b : bool) (c : conn) : conn :=
   mkConn (closed c) (by_user c) (est c) b (installed c) (can_hs c) (can_rd c)
-    (sock_closed c) (sock_closes c) (cn_close c) (cn_reply c) (first_err c) (dec_closed c)
+    (sock_closed c) (sock_closes c) (cn_close c) (cn_reply c) (cn_once c) (first_err c) (dec_closed c)
     (rd_dl c) (wr_dl c) (hctx c) (dual c) (v13 c).
 (* handshake(): fresh ctxHs/ctxRead, cancel functions stored under closeLock *)
 Definition install (c : conn) : conn :=
   mkConn (closed c) (by_user c) (est c) (hs_open c) true false false
-    (sock_closed c) (sock_closes c) (cn_close c) (cn_reply c) (first_err c) (dec_closed c)
+    (sock_closed c) (sock_closes c) (cn_close c) (cn_reply c) (cn_once c) (first_err c) (dec_closed c)
     (rd_dl c) (wr_dl c) (hctx c) (dual c) (v13 c).
 Definition set_rd_dl (c : conn) : conn :=
   mkConn (closed c) (by_user c) (est c) (hs_open c) (installed c) (can_hs c) (can_rd c)
-    (sock_closed c) (sock_closes c) (cn_close c) (cn_reply c) (first_err c) (dec_closed c)
+    (sock_closed c) (sock_closes c) (cn_close c) (cn_reply c) (cn_once c) (first_err c) (dec_closed c)
     true (wr_dl c) (hctx c) (dual c) (v13 c).
 Definition set_wr_dl (c : conn) : conn :=
   mkConn (closed c) (by_user c) (est c) (hs_open c) (installed c) (can_hs c) (can_rd c)
-    (sock_closed c) (sock_closes c) (cn_close c) (cn_reply c) (first_err c) (dec_closed c)
+    (sock_closed c) (sock_closes c) (cn_close c) (cn_reply c) (cn_once c) (first_err c) (dec_closed c)
     (rd_dl c) true (hctx c) (dual c) (v13 c).
 Definition set_hctx (c : conn) : conn :=
   mkConn (closed c) (by_user c) (est c) (hs_open c) (installed c) (can_hs c) (can_rd c)
-    (sock_closed c) (sock_closes c) (cn_close c) (cn_reply c) (first_err c) (dec_closed c)
+    (sock_closed c) (sock_closes c) (cn_close c) (cn_reply c) (cn_once c) (first_err c) (dec_closed c)
     (rd_dl c) (wr_dl c) true (dual c) (v13 c).
 
 (* ------------------------------------------------------------------ close(byUser) *)
@@ -136,7 +147,7 @@ Inductive cpc :=
 | CCan1 (w i : bool)      (* before cancelHandshaker() *)
 | CCan2 (w i : bool)      (* before cancelHandshakeReader(); then "if closedByUser||isClosed return" *)
 | CEst                    (* before reading isHandshakeCompletedSuccessfully() *)
-| CNotify (e : bool)      (* before notify(close_notify) (only if e && byUser) *)
+| CNotify (e : bool)      (* before sendCloseNotify() (only if e && byUser) *)
 | CSock                   (* before nextConn.Close() *)
 | CRet.                   (* returned *)
 
@@ -146,7 +157,7 @@ Definition close_step (byUser : bool) (p : cpc) (c : conn) : cpc * conn :=
   | CCan1 w i => (CCan2 w i, if i then set_can_hs c else c)
   | CCan2 w i => (if w then CEst else CRet, if i then set_can_rd c else c)
   | CEst => (CNotify (est c), c)
-  | CNotify e => (CSock, if e && byUser then inc_cn_close c else c)
+  | CNotify e => (CSock, if e && byUser then send_cn_close c else c)
   | CSock => (CRet, close_sock c)
   | CRet => (CRet, c)
   end.
@@ -183,7 +194,7 @@ Definition reader_step (r : rpc) (c : conn) : rpc * conn :=
   | RRead => if can_rd c then (RClassify RCanceled, c)
              else if sock_closed c then (RClassify RSockClosed, c)
              else (RRead, c)
-  | RReply => (RClassify RCn, if sock_closed c then c else inc_cn_reply c)
+  | RReply => (RClassify RCn, send_cn_reply c)
   | RClassify RCn => (RClose CLock, put_first_err RCn c)
   | RClassify RFatal => (RClose CLock, put_first_err RFatal c)
   | RClassify RCanceled =>
@@ -332,15 +343,13 @@ Definition read_ready (c : conn) : list rclass :=
   (if closed c then [KEof] else []) ++ (if rd_dl c then [KDeadline] else []) ++
   (if dec_closed c then [KEof] else []).
 
-(* conn.go Write blocked in nextConn.WriteToContext(contextWithClose(writeDeadline)):
-   DTLS 1.2 (writePacketsWithResultLocked): Canceled && isConnectionClosed -> ErrConnClosed;
-     cause DeadlineExceeded -> ErrDeadlineExceeded; socket closed under it -> net error.
-   DTLS 1.3 (fsm13.waitPostHandshakeCompletion): "case <-ctx.Done(): return ctx.Err()" is
-     ready as soon as closed holds and yields context.Canceled; "case <-s.closed" (FSM gone)
-     yields ErrConnClosed. *)
+(* conn.go Write blocked below writeApplicationData(contextWithClose(writeDeadline)):
+   cause DeadlineExceeded -> ErrDeadlineExceeded; "errors.Is(err, context.Canceled) &&
+   c.isConnectionClosed() -> ErrConnClosed" (in writePacketsWithResultLocked for DTLS 1.2 and in
+   Write itself for both versions, so also for the ctx.Err() that DTLS 1.3's
+   fsm13.waitPostHandshakeCompletion returns); the socket closed under the write -> net error. *)
 Definition write_ready (c : conn) : list rclass :=
-  (if closed c then (if v13 c then [KCanceled] else [KClosed]) else []) ++
-  (if closed c && v13 c && can_hs c then [KClosed] else []) ++
+  (if closed c then [KClosed] else []) ++
   (if wr_dl c then [KDeadline] else []) ++
   (if sock_closed c then [KNetClosed] else []).
 
